@@ -8,6 +8,11 @@ ALL = [f'C{i:02d}' for i in range(1, 21)]
 
 # id -> (level text, level note, technique, design ref)
 CHECKS = {
+    'C04': (
+        'Bounded-exhaustive type-directed exploration: for each schema of a family (primitives, variable/fixed arrays, nested messages, arrays of messages, constants; 4 schemas quick, 6 thorough) every Bool term up to 5 nodes that is well-typed under the schema (references to the message, to an aliased earlier message and to quantified variables) is wrapped into every property position that can see the alias; the parser must accept it, every reference must keep its declared type possible, and the real schema check must succeed.',
+        'Sort-directed generation is the reference notion of well-typed; the schema resolver in hplmc/schemas.py is independent of hpl.types.',
+        'bounded exhaustive schema x type-directed term enumeration with an independent resolver',
+    ),
     'C03': (
         'Explicit-state BFS over the real API: initial states are all parser results on the term universe (quick 4, thorough 5 nodes) as expression and predicate plus a property family; transitions are simplify, split_and elements, refactor_reference halves, both replacements, negate, join with a predicate menu and canonical_form outputs; all compositions to depth 2 (the depth the property states), states deduplicated on the typed lift; an independent per-node typing invariant is evaluated on every node of every state.',
         'The invariant table (hplmc/ref/types.py: operator/function signatures, kind allowances) is hard-coded from the documented language and trusted; bound-variable use is checked with the weakest reading.',
